@@ -57,7 +57,8 @@ def items(tier: str) -> List[Any]:
             if s not in seen:
                 seen.add(s)
                 out.append(s)
-    for focus, _, s in detspaces.detector_spaces(tier, chains=False):
+    # the detector spaces of the quick tier (completely in thorough; thorough adds the larger raw layouts above)
+    for focus, _, s in detspaces.detector_spaces("quick", chains=False):
         if focus in ("rekey-to", "group-size-check") and s not in seen:
             seen.add(s)
             out.append(s)
